@@ -3,6 +3,9 @@ package checks
 import (
 	"bytes"
 	"fmt"
+
+	"github.com/github/git-sizer/sizes"
+
 	"os"
 	"path/filepath"
 	"strings"
@@ -11,6 +14,7 @@ import (
 	"verif/cli"
 	"verif/explore"
 	"verif/gen"
+	"verif/inproc"
 	"verif/modelgit"
 	"verif/mrepo"
 	"verif/oracle"
@@ -225,6 +229,7 @@ func c10Worker(sh *explore.Shard) {
 		c10Extras(sh, &idx, dir, si, sc, fs, r0, log, outputs)
 	}
 	c10RealGit(sh, &idx, dir)
+	c10InProc(sh, &idx)
 }
 
 // c10Extras: (a) every single-split chunking of every output stream with no
@@ -307,6 +312,57 @@ func c10Extras(sh *explore.Shard, idx *int64, dir string, si int, sc c10Scenario
 			}
 		}
 	}
+}
+
+// c10InProc repeats single stdout/exit faults at EVERY byte position on many
+// more repositories, in-process (real CollectReferences +
+// ScanRepositoryUsingGraph over the shim pipe): the scan must return an error,
+// never a result, never panic. (The CLI tier above is the authoritative one;
+// this tier widens the scenario set.)
+func c10InProc(sh *explore.Shard, idx *int64) {
+	install()
+	stride := int64(41)
+	if sh.Tier == "thorough" {
+		stride = 7
+	}
+	var n int64
+	mixedScenarios("quick", func(r *mrepo.Repo, special map[string]mrepo.ID, desc string) bool {
+		n++
+		if n%stride != 0 {
+			return true
+		}
+		*idx++
+		if !sh.Mine(*idx) {
+			return true
+		}
+		if sh.Expired() {
+			return false
+		}
+		sc := &gen.Scenario{Repo: r, Explicit: [][2]string{{"blobC", string(special["blobC"])}}, Desc: desc}
+		probe := inproc.Scan(modelgit.NewEnv(r, &modelgit.Plan{}), inproc.SimpleGrouper{Walk: sc.Walks}, sc.Explicit, sizes.NameStyleFull, nil)
+		if probe.Err != nil || probe.Panic != nil {
+			return true
+		}
+		for _, inv := range probe.Log {
+			for k := 0; k <= inv.OutLen; k++ {
+				for _, exit := range []int{1, -9} {
+					f := modelgit.Fault{Kind: inv.Kind, Nth: inv.Nth, StdoutBytes: k, StdinLines: -1, Exit: exit}
+					if k == inv.OutLen {
+						f.StdoutBytes, f.AtExit = -1, true
+					}
+					res := inproc.Scan(modelgit.NewEnv(r, &modelgit.Plan{Faults: []modelgit.Fault{f}}), inproc.SimpleGrouper{Walk: sc.Walks}, sc.Explicit, sizes.NameStyleFull, nil)
+					sh.C.Evals++
+					sh.C.Add("inproc_fault_scans", 1)
+					if res.Panic != nil || res.Err == nil {
+						sh.C.Violate(explore.Violation{Property: "C10", Class: "inproc-fault", Msg: fmt.Sprintf("in-process: %s#%d dies (%d) after %d of %d bytes: panic=%v, error returned=%v [%s]", inv.Kind, inv.Nth, exit, k, inv.OutLen, res.Panic, res.Err != nil, desc),
+							Case: caseJSON(sh.Index(), map[string]any{"desc": desc, "fault": f}), Detail: r.Describe()})
+					}
+				}
+			}
+		}
+		sh.C.Nontrivial++
+		return true
+	})
 }
 
 // c10RealGit: removed objects and invalid inputs with the real git.
@@ -393,6 +449,6 @@ func c10RealGit(sh *explore.Shard, idx *int64, dir string) {
 
 func init() {
 	Registry["C10"] = &Check{Level: "fault_enumeration", Worker: c10Worker, QuickBudget: 100 * time.Second, ThoroughBudget: 20 * time.Minute,
-		Rule: "the real binary with the fault-injecting model git first on PATH, 6 scenarios (root kinds x table/JSON v1 with ROOT/JSON v2 with refgroup; merge history verbose and with progress; 3000 references): the fault-free run is recorded, then EVERY single fault of the model is injected in turn: for every git invocation of the run (identified as kind, n-th) exit status 1/128/SIGKILL after its complete output, death after k bytes of stdout for every record boundary and +-1 byte, first, middle and last byte (quick) or every k (thorough), and death after reading j stdin lines for every j. Oracle: exit 0 implies stdout byte-identical to the fault-free report; a fired fault implies non-zero exit, empty stdout, an 'error:' line and termination within 60 s; `config --get` exiting 1 is git's 'unset' answer and must not be an error. Every single-split chunking (record boundaries +-1 byte) of every output stream with per-record flushing and no fault must give the fault-free report; thorough adds every pair of simultaneous faults among the scanning pipelines' invocations at record granularity (first two scenarios). With real git: every reachable object removed in turn, 14 invalid option/ROOT vectors, 6 invalid configurations, shallow and absent repository must give a clean error. non-trivial = every injected fault",
+		Rule:        "the real binary with the fault-injecting model git first on PATH, 6 scenarios (root kinds x table/JSON v1 with ROOT/JSON v2 with refgroup; merge history verbose and with progress; 3000 references): the fault-free run is recorded, then EVERY single fault of the model is injected in turn: for every git invocation of the run (identified as kind, n-th) exit status 1/128/SIGKILL after its complete output, death after k bytes of stdout for every record boundary and +-1 byte, first, middle and last byte (quick) or every k (thorough), and death after reading j stdin lines for every j. Oracle: exit 0 implies stdout byte-identical to the fault-free report; a fired fault implies non-zero exit, empty stdout, an 'error:' line and termination within 60 s; `config --get` exiting 1 is git's 'unset' answer and must not be an error. Every single-split chunking (record boundaries +-1 byte) of every output stream with per-record flushing and no fault must give the fault-free report; thorough adds every pair of simultaneous faults among the scanning pipelines' invocations at record granularity (first two scenarios). In-process (widening the scenario set): every 41st (7th) repository of the mixed family x every invocation x EVERY byte position x exit 1/SIGKILL must return an error and never panic. With real git: every reachable object removed in turn, 14 invalid option/ROOT vectors, 6 invalid configurations, shallow and absent repository must give a clean error. non-trivial = every injected fault",
 		Assumptions: []string{"single faults in quick; pairs only among rev-list / cat-file invocations at record granularity in thorough", "the model git's death is an exit status or a signal after a prefix of its correct output"}}
 }
